@@ -12,9 +12,10 @@
   * `carries_on`: hence whatever is handed to it afterwards is answered as by a machine that never stopped.
   * `fatal_is_noop`: an operation refused with a fatal error (no result file; not logged) leaves the machine as it was, so
     the log (which lacks it) rebuilds the same machine as the history (which has it).
-  The orders of Go's map ranges are part of an operation here: the replay is assumed to take the same ones. Where the
-  answer of a step does not depend on the order is shown in Props/C11Air.lean (`unacceptable_deal_refused` holds in every
-  order; an accepted step visits every deal); after a REFUSED deals step the real state does depend on it (which deals
+  The orders of Go's map ranges are part of an operation here: the replay is assumed to take the same ones. For the deals
+  step the order does not matter (Props/C12AirOrder.lean `responses_order_irrelevant`: two ranges that are permutations of
+  each other are both refused or both answered, with the same machine afterwards; Props/C11Air.lean
+  `unacceptable_deal_refused` holds in every order); after a REFUSED deals step the real state does depend on it (which deals
   were examined before the refusal) — observable only by operations on a round every honest node has already cancelled.
 -/
 import Dc4bcVerif.Model.AirDkg
